@@ -52,6 +52,24 @@ Proof. exact rs_error_unchanged. Qed.
 Theorem C22_read_unchanged : forall mode cfg st r, rs_is_read r = true -> fst (rs_handle mode cfg st r) = st.
 Proof. exact rs_read_unchanged. Qed.
 
+(** an append is refused only for a reason: the request itself is invalid (strict versioning, a timestamp whose
+    nanoseconds overflow u64, no events, an event id without the key's partition hash), or the reference append
+    rejects the transaction - and then the error is that rejection's (WRONGVER / DBOPFAILED).  Together with
+    C22_total: a valid request the reference store accepts is answered with the append reply above *)
+Theorem C22_append_error : forall mode cfg st ev pk dflt now fits st' e,
+  rs_handle mode cfg st (RqAppend ev pk dflt now fits) = (st', ROk (RpErr e)) ->
+  let key := match pk with Some k => k | None => dflt end in
+  ((e = EInvalidArg \/ e = EInvalidEventId) /\ rs_refused cfg key [ev] now) \/
+  (exists bs g l' r, rs_build [ev] (rs_hash key) now (rs_gen st) = (Some bs, g) /\
+     spec_append (rs_logs st (rs_bucket cfg (rs_pid cfg key))) (rs_txn cfg st key bs) fits = (l', inr r) /\ e = rs_err_of r).
+Proof. exact rs_append_error. Qed.
+Theorem C22_mappend_error : forall mode cfg st pk evs now fits st' e,
+  rs_handle mode cfg st (RqMAppend pk evs now fits) = (st', ROk (RpErr e)) ->
+  (e = EInvalidArg /\ rs_refused cfg pk evs now) \/
+  (exists bs g l' r, rs_build evs (rs_hash pk) now (rs_gen st) = (Some bs, g) /\
+     spec_append (rs_logs st (rs_bucket cfg (rs_pid cfg pk))) (rs_txn cfg st pk bs) fits = (l', inr r) /\ e = rs_err_of r).
+Proof. exact rs_mappend_error. Qed.
+
 (** ---- scans: events and has_more against the reference filters ---- *)
 (** ESCAN: the events are the first COUNT of { stream events from START, version <= END, sequence below the
     watermark of the addressed partition }, in order; has_more = false only if that is all of them *)
@@ -163,6 +181,8 @@ Print Assumptions C22_append_reply.
 Print Assumptions C22_mappend_reply.
 Print Assumptions C22_reconstruction.
 Print Assumptions C22_spec_append_chain.
+Print Assumptions C22_append_error.
+Print Assumptions C22_mappend_error.
 Print Assumptions C22_error_unchanged.
 Print Assumptions C22_read_unchanged.
 Print Assumptions C22_scan_reply.
